@@ -1025,6 +1025,12 @@ mod w2gen {
             }
             // self-load: advances of every glyph, outlines of every non-composite glyph
             let glyphs = m.group.map(|g| &b.groups[g].glyphs);
+            if tables.contains_key(b"fvar") {
+                // the model's extra tables carry arbitrary bytes; Font::new parses fvar eagerly, so
+                // a font with an (arbitrary) extra table under that tag is not expected to load
+                rec.class("woff2-generated:self-load-skipped(arbitrary fvar table)");
+                continue;
+            }
             let mut font = Font::new(prov).map_err(|e| fail("woff2-generated:self-load", format!("{}: Font::new: {:?}", who, e)))?;
             let n = font.num_glyphs();
             for g in 0..n {
